@@ -173,6 +173,13 @@ def _run_cases(job, specs, descs, mods, res, bump, mode, spans, bytes_mode, tag)
                 except RecursionError:
                     bump('skipped_illformed')
                     continue
+                except Exception as x:
+                    # inline Python of the test grammar raised (int('a'), len(None)...): such grammars
+                    # are outside the properties ("grammars whose inline Python does not raise")
+                    if not job.get('pyraise'):
+                        raise
+                    bump('skipped_inline_python_raises')
+                    continue
                 nontrivial = counters.restores > before
                 for full in fulls:
                     # every call gets a fresh text object that is dropped afterwards, so that
